@@ -3,7 +3,7 @@
    request:  <op> <form> <fmts|types> <names> <init> <defaults> <fixpack> <fixunpack> <args> <kw>
      op      init | pack | unpack | gen | tmap
      form    I (interpreted) | C (vp_compile) | D (dataclass; third token holds type annotations)
-     fmts    [s:I,s:bits,c:Cls,l:Cls]             types  [bool,int,tv:varlenH,co:int,cs:Cls,se:Cls,other]
+     fmts    [s:I,s:bits,c:Cls,l:Cls]             types  [bool,int,tv:varlenH,co:int,cot:int,cos:int,cs:Cls,cot:se:Cls,se:Cls,lit:Cls,other]
      init    - | kw | nokw | super:<n>             (no user __init__ | with **kwargs | without | old-style
                                                     superclass whose __init__ takes the first n names)
      defaults [b=d1>d1,c=d2>!]                     name=value>value-denoted-by-the-spliced-text ("!" = does not compile)
@@ -14,6 +14,7 @@
 -/
 import Ipv8.Base.Proto
 import Ipv8.C20.Model
+import Ipv8.C20.Gen
 open Ipv8 Ipv8.C20
 
 inductive Term
@@ -56,9 +57,12 @@ partial def parseTy (s : String) : Option Ty :=
     let (k, v) ← splitOnce s ':'
     match k with
     | "tv" => some (.tvar v)
-    | "co" => (parseTy v).map .coll
-    | "cs" => some (.collSer v)
+    | "co" => (parseTy v).map (.coll .list)
+    | "cot" => (parseTy v).map (.coll .tuple)
+    | "cos" => (parseTy v).map (.coll .set)
+    | "cs" => some (.coll .list (.ser v))
     | "se" => some (.ser v)
+    | "lit" => some (.lit v)
     | _ => none
 
 def parseKw (s : String) : Option (KW Term) := do
@@ -80,6 +84,11 @@ def parseDefaults (s : String) : Option (KW Term × List (String × Option Term)
 def hookList (pre : String) (s : String) : Option (List (String × (Term → Term))) := do
   let its ← items s
   pure (its.map (fun n => (n, fun t => Term.app (pre ++ n) t)))
+
+def convTerm : CKind → Term → Term
+  | .list, t => t
+  | .tuple, t => Term.app "tuple" t
+  | .set, t => Term.app "set" t
 
 def showFmt : Fmt → String
   | .str s => "s:" ++ s
@@ -123,7 +132,7 @@ def step (_ : Unit) (toks : List String) : Unit × String :=
       let evs ← Proto.natList? evS
       let c : DChain Term := { levels := (nameLevels.zip tyLevels).map (fun (ns, ts) =>
         (ns.zip ts).map (fun (n, t) => (n, t, (none : Option Term)))) }
-      let conv := runInst evs
+      let conv := c.run Gen.newGuard evs
       let parts := (List.range c.levels.length).map (fun k =>
         match c.classData conv k with
         | .ok (fs, ns) => s!"{k}:" ++ ",".intercalate (fs.map showFmt) ++ ";" ++ ",".intercalate ns
@@ -152,7 +161,7 @@ def step (_ : Unit) (toks : List String) : Unit × String :=
         | "D" => do
           let tys ← fitems.mapM parseTy
           let fields := (names.zip tys).map (fun (n, t) => (n, t, alookup defaults n))
-          some (DDef.toPDef { fields := fields, fixPack := fp, fixUnpack := fu })
+          some (DDef.toPDef { fields := fields, fixPack := fp, fixUnpack := fu, conv := convTerm })
         | _ => do
           let fmts ← fitems.mapM parseFmt
           some (.ok { fmts := fmts, names := names, userInit := userInit, defaults := defaults,
@@ -179,7 +188,7 @@ def step (_ : Unit) (toks : List String) : Unit × String :=
           if form != "D" then none else
           let tys := (fitems.filterMap parseTy)
           let dd : DDef Term := { fields := (names.zip tys).map (fun (n, t) => (n, t, alookup defaults n)),
-                                  fixPack := fp, fixUnpack := fu }
+                                  fixPack := fp, fixUnpack := fu, conv := convTerm }
           let r := dataclassDecodeFirst (fun fmts _ => some (fmts.map (fun _ => Term.atom "u"))) splice dd []
           some (match r with | .ok a => showAttrs a | .error e => showErr e)
         | "fmts" =>
